@@ -6,7 +6,9 @@ PROP = {
                   "leaf of a generated value at a time at 0/1/2/3/single bits/max/max-1/PRNG, found by reflection incl. TLV "
                   "record wrappers) and of harness-built boundary "
                   "values (every variable-length field at 0/1/representation boundaries/field limit/largest that fits "
-                  "65535, refusals judged against the harness's own size computation), differential oracle "
+                  "65535, refusals judged against the harness's own size computation), history independence of the "
+                  "well-formed round trip (refused encodes of catalogued ill-formed values, failing decodes and large "
+                  "encodes run before / concurrently with / in the middle of it; bytes before == bytes after), differential oracle "
                   "(independent canonical-TLV recogniser) for tlv.Stream"),
     "level_text": ("Every message type accepted by makeEmptyMessage (plus custom types) and every onion failure code "
                    "(message and padded packet form) is decoded from generated valid encodings (lnwire's own rapid "
@@ -27,9 +29,29 @@ PROP = {
                    "(record lengths, non-minimal BigSize, swap/dup/truncate/lower type, and value-domain mutants: one record of 1..8 value bytes "
                "at the same boundary values, and every record type the encoder emits for that message but elided in this encoding "
                "inserted with boundary values) and an accepted message must carry an "
-                   "extension that an independent BOLT-1 walker accepts; in module tlv the four Stream decode entry points must accept exactly "
+                   "extension that an independent BOLT-1 walker accepts; HISTORY: every boundary value, every generated "
+                   "value and one field-domain value in three (plus every unmodified one) is encoded once first thing, then 0-3 "
+                   "PRNG-chosen disturbances run in the same goroutine - (a) the real encoder is handed one of 140 classes "
+                   "of ILL-FORMED values of 49 targets it must refuse (unsupported / nil net.Addr, onion address of unknown "
+                   "length or bad base32, nil feature vector / public key, short channel id or outpoint index beyond its wire "
+                   "width, unknown scid encoding, timestamp/scid mismatch, custom records below the custom range or colliding "
+                   "with the extra data, non-TLV extra data, node_announcement_2 alias / tor records, blobs, lists and "
+                   "extensions beyond their uint16 prefix, failure packets > 256 bytes; the ill element first / middle / "
+                   "last of its list; through Message.Encode, DataToSign where present and WriteMessage / EncodeFailure"
+                   "[Message]), (b) a failing decode of hostile bytes of the same or another target, (c) encode + decode of "
+                   "another 50-65 KB well-formed value - and for 1 value in 24 another 2-4 goroutines run disturbances "
+                   "concurrently with the round trip; the value's round trip is then judged as before and oracle "
+                   "history_independent requires the bytes produced after the disturbances (and once more after the "
+                   "concurrent disturbers finished) to equal the bytes produced before them; for one value in three 1-2 other "
+                   "decodes (same target valid / hostile, large other) run between the decode of the value's own encoding and "
+                   "the comparison / re-encode of the decoded value; in module tlv the four Stream decode entry points must accept exactly "
                    "the streams an independent reference recogniser calls canonical and re-encode them byte-identically."),
-    "level_note": ("Sampled, not exhaustive. A hang shows up as the shard watchdog (inconclusive), not as a violation. "
+    "level_note": ("Sampled, not exhaustive. History independence is sampled over sequences of at most 3 preceding "
+                   "calls (plus 2-4 concurrent disturbers for 1 value in 24) from a hand-built catalogue of ill-formed values "
+                   "(encoder refusals only where lnd returns an error, not where it panics by contract); what a concurrent "
+                   "disturber leaves in another P's sync.Pool slot is seen only if the scheduler moves the checking goroutine "
+                   "there (scheduling-dependent coverage, never a scheduling-dependent verdict); a run in which no encode was "
+                   "refused is inconclusive (hist_* floors). A hang shows up as the shard watchdog (inconclusive), not as a violation. "
                    "Allocation is judged only when grossly exceeded (>64 MiB for one <=65 KB input); the measured maximum "
                    "is reported. lnwire in the main module links tlv v1.4.0 from the module cache, so the working-tree tlv "
                    "is exercised only by the tlv unit."),
@@ -60,6 +82,12 @@ PROP = {
                     "varied; values that exceed a documented field limit (script > 34, alias2 of 0 or > 32 bytes, > 16 nonces, "
                     "> 100000 scids, hostname > 255) are not generated; two dns addresses in one node_announcement and a 1-byte "
                     "(non-TLV) extension are diagnostics only",
+                    "history_independent: the value is encoded twice (before and after the disturbances) from the same Go "
+                    "object, i.e. Encode is taken to be idempotent on its receiver (holds for all messages on the pinned tree: "
+                    "ExtraData rebuilt from typed records and in-place scid sorting are idempotent); an encode refused once "
+                    "and accepted once is a diagnostic (hist_refusal_flipped), a catalogue entry the encoder accepts or panics "
+                    "on is a diagnostic (hist_illenc_accepted / hist_illenc_panic, both 0 on the pinned tree); disturbances of "
+                    "the race unit are off",
                     "ext_reencode_reproduces_input is a diagnostic; its narrowly fingerprinted sub-case unknown_records_preserved "
                     "(exactly the unknown-type records missing after re-encode) is verdict-bearing and matched by KF-C10-6"],
     "eval_counter": "decodes",
@@ -70,7 +98,7 @@ PROP = {
     "units": [
         {
             "name": "lnwire", "pkg": "lnwire", "test": "TestVerifC10",
-            "files": ["lnwire/c10_test.go", "lnwire/c10wf_test.go", "lnwire/c10fd_test.go"],
+            "files": ["lnwire/c10_test.go", "lnwire/c10wf_test.go", "lnwire/c10fd_test.go", "lnwire/c10hist_test.go"],
             "shards": {"quick": 8, "thorough": 16},
             "fatal_is_violation": True,
             "floors": {"quick": {"decodes": 285000, "accepted": 130000, "rejected": 155000, "fixpoint_evals": 93000,
@@ -91,7 +119,19 @@ PROP = {
                                  "wf_data": 96, "wf_ext": 1128, "wf_ext_nearlimit": 324, "wf_features": 792,
                                  "wf_na2_addrs": 144, "wf_nonces": 60, "wf_padding": 96, "wf_reason": 54,
                                  "wf_scids_plain": 96, "wf_scids_zlib": 120, "wf_script": 210, "wf_sigs": 54,
-                                 "wf_timestamps": 48},
+                                 "wf_timestamps": 48,
+                                 # history dimension (c10hist_test.go): ~50 % of the minimum over seeds 1..5
+                                 "hist_values": 19700, "history_independent_evals": 19700,
+                                 "history_independent_evals_disturbed": 15000,
+                                 "history_independent_evals_after_refused_encode": 10500,
+                                 "history_independent_evals_concurrent": 820,
+                                 "history_independent_post_concurrent_evals": 800,
+                                 "hist_illenc_refused": 19200, "hist_illenc_refused_partway": 12000,
+                                 "hist_illenc_datatosign_refused": 3800,
+                                 # 140 catalogue classes, each refused at least once in every one of the 8 shards
+                                 "hist_illenc_classes_refused": 560,
+                                 "hist_baddec_rejected": 8300, "hist_oklarge_ok": 12000, "hist_okdec_accepted": 4800,
+                                 "hist_mid_values": 6400, "hist_concurrent_disturbances": 8600},
                        "thorough": {"decodes": 9500000, "accepted": 4300000, "rejected": 5100000,
                                     "fixpoint_evals": 3100000, "lossless_evals": 76000, "alloc_evals": 3200000,
                                     "ext_decodes": 1900000, "ext_accept_implies_canonical_evals": 1100000,
@@ -107,12 +147,23 @@ PROP = {
                                     "wf_custom_records_nearlimit": 6000, "wf_data": 3200, "wf_ext": 37600,
                                     "wf_ext_nearlimit": 10800, "wf_features": 26400, "wf_na2_addrs": 4800,
                                     "wf_nonces": 2000, "wf_padding": 3200, "wf_reason": 1800, "wf_scids_plain": 3200,
-                                    "wf_scids_zlib": 4000, "wf_script": 7000, "wf_sigs": 1800, "wf_timestamps": 1600}},
+                                    "wf_scids_zlib": 4000, "wf_script": 7000, "wf_sigs": 1800, "wf_timestamps": 1600,
+                                    # history dimension: quick floors x 30 (400 rounds instead of 12; not measured)
+                                    "hist_values": 590000, "history_independent_evals": 590000,
+                                    "history_independent_evals_disturbed": 450000,
+                                    "history_independent_evals_after_refused_encode": 315000,
+                                    "history_independent_evals_concurrent": 24600,
+                                    "history_independent_post_concurrent_evals": 24000,
+                                    "hist_illenc_refused": 576000, "hist_illenc_refused_partway": 360000,
+                                    "hist_illenc_datatosign_refused": 114000, "hist_illenc_classes_refused": 1120,
+                                    "hist_baddec_rejected": 249000, "hist_oklarge_ok": 360000,
+                                    "hist_okdec_accepted": 144000, "hist_mid_values": 192000,
+                                    "hist_concurrent_disturbances": 258000}},
             "watchdog": {"quick": 900, "thorough": 10800},
         },
         {
             "name": "lnwire_race", "pkg": "lnwire", "test": "TestVerifC10Race",
-            "files": ["lnwire/c10_test.go", "lnwire/c10wf_test.go", "lnwire/c10fd_test.go"],
+            "files": ["lnwire/c10_test.go", "lnwire/c10wf_test.go", "lnwire/c10fd_test.go", "lnwire/c10hist_test.go"],
             "tiers": ["thorough"],
             "race": {"quick": True, "thorough": True},
             "shards": {"quick": 8, "thorough": 16},
